@@ -1,7 +1,7 @@
 import GoomVerif.Drv.Util
 import GoomVerif.Model.Stub
 /-! Driver for C20.
-    `c20.seq <off> <min> <max> <req>…`      req = `h<len>` (acquireFromHolder called directly), `f<len>` (Acquire, the kernel
+    `c20.seq <off> <min> <max> <req>…`      req = `h<len>` (acquireFromHolder called directly), `d<len>` (Acquire with new mappings denied by RLIMIT_AS), `f<len>` (Acquire, the kernel
                                             refuses the mapping), `m<len>` (Acquire, the kernel grants it)
         → per request `H+<addr-min>:<len>` | `M:<len>` | `E`, then `off=+<off-min>`
     `c20.sched <off> <min> <max> <len,len,…> <i,i,…>`   run a schedule of micro-steps → per requester result
@@ -9,6 +9,8 @@ import GoomVerif.Model.Stub
         → `admitted` | `rejected` | `malformed`
     `c20.explains <off> <min> <max> <len,…> <res,…> <i,i,…>`   does this schedule reproduce every observed result?
         → `explained` | `unexplained` | `malformed`
+    `c20.owrite <m|h> <regionLen> <dataLen>`   one stub.Write of dataLen bytes into a region of regionLen bytes
+        → `err` | `wrote=<n> dropped=<k> beyond=<b>` (bytes stored / silently dropped / stored past the region's end)
     `c20.writes <m|h> <len> <n>`   n successive stub.Write calls on one region of the mmap / reserve path
         → `ok perm=<rwx|rx>` (protection left behind) | `fault@<k>` -/
 namespace Drv.C20
@@ -17,16 +19,20 @@ open Stub
 def splitNats (s : String) : Option (List Nat) :=
   if s = "-" then some [] else (s.splitOn ",").mapM parseNat
 
-def parseReq (s : String) : Option (Nat × Mmap) :=
+def parseReq (s : String) : Option (Int × Mmap) :=
   match s.toList with
-  | 'h' :: r => (parseNat (String.ofList r)).map (fun n => (n, Mmap.fail))
-  | 'f' :: r => (parseNat (String.ofList r)).map (fun n => (n, Mmap.fail))
-  | 'm' :: r => (parseNat (String.ofList r)).map (fun n => (n, Mmap.fresh 0))
+  | 'h' :: r => (parseInt (String.ofList r)).map (fun n => (n, Mmap.fail))
+  | 'f' :: r => (parseInt (String.ofList r)).map (fun n => (n, Mmap.fail))
+  | 'd' :: r => (parseInt (String.ofList r)).map (fun n => (n, Mmap.fail))
+  | 'm' :: r => (parseInt (String.ofList r)).map (fun n => (n, Mmap.fresh 0))
   | _ => none
+
+/-- a slice length as Go prints it (`int`): lengths ≥ 2^63 are negative -/
+def signed (n : Nat) : Int := if n < 9223372036854775808 then (n : Int) else (n : Int) - 18446744073709551616
 
 def showSpace (min : Nat) : Option Space → String
   | none => "E"
-  | some sp => if sp.typ = typeHolder then s!"H+{sp.addr - min}:{sp.len}" else if sp.typ = typeMMap then s!"M:{sp.len}" else "?"
+  | some sp => if sp.typ = typeHolder then s!"H+{(sp.addr : Int) - (min : Int)}:{signed sp.len}" else if sp.typ = typeMMap then s!"M:{sp.len}" else "?"
 
 def showRes (min : Nat) : Option Res → String
   | none => "n"
@@ -52,7 +58,7 @@ def handle (toks : List String) : Option String :=
     match parseNat off, parseNat min, parseNat max, reqs.mapM parseReq with
     | some off, some min, some max, some rs =>
       let out := (runSeq off min max rs).map (fun q => showSpace min q.2)
-      some (String.intercalate " " (out ++ [s!"off=+{offSeq off min max rs - min}"]))
+      some (String.intercalate " " (out ++ [s!"off=+{(offSeq off min max rs : Int) - (min : Int)}"]))
     | _, _, _, _ => some "bad-op"
   | ["c20.sched", off, min, max, lens, sched] =>
     match parseNat off, parseNat min, parseNat max, splitNats lens, splitNats sched with
@@ -83,6 +89,15 @@ def handle (toks : List String) : Option String :=
         if !h.wellFormed then some "malformed" else some (if explains h σ then "explained" else "unexplained")
       | none => some "bad-op"
     | _, _, _, _, _ => some "bad-op"
+  | ["c20.owrite", path, rl, dl] =>
+    match parseNat rl, parseNat dl with
+    | some rl, some dl =>
+      if path ≠ "m" ∧ path ≠ "h" then some "bad-op" else
+      let sp : Space := ⟨0, rl, if path = "m" then typeMMap else typeHolder⟩
+      match writeFootprint sp dl with
+      | none => some "err"
+      | some (a, n) => some s!"wrote={n} dropped={dl - n} beyond={(a + n) - (sp.addr + sp.len)}"
+    | _, _ => some "bad-op"
   | ["c20.writes", path, _len, n] =>
     match parseNat n with
     | some n =>
